@@ -1,100 +1,35 @@
-(* Proofs/Counters: per-query counter/log discipline of the handler model. *)
+(* Proofs/Counters: per-query counter/log discipline of the handler model.
+
+   Structure: [serve q] is always  out_app (incs prefix) tail  where the prefix is
+   the straight-line part (DNS_queries, type, location, cache counters) and the
+   tail is one of: serve_lookup, write_and_log, or a stop without counters.
+   Prefix keys and tail keys are disjoint, so every claim splits in two. *)
 From Coq Require Import Permutation.
-From DnsV Require Import Base.Bytes Model.Counters Proofs.CounterMap.
+From DnsV Require Import Base.Bytes Model.Counters Spec.Counters Proofs.CounterMap.
 Open Scope N_scope.
 
-(* ---------- counting *)
-Fixpoint cnt (k : ckey) (l : list ckey) : nat :=
-  match l with
-  | [] => O
-  | x :: l' => ((if key_eqb k x then 1 else 0) + cnt k l')%nat
-  end.
-
-Definition b2n (b : bool) : nat := if b then 1%nat else 0%nat.
-
-Definition nlog (c : logcall) (l : list logcall) : nat :=
-  length (filter (fun x => match c, x with
-                           | LogSent, LogSent | LogRequest, LogRequest | LogFailedReq, LogFailedReq => true
-                           | _, _ => false end) l).
-
-(* the composed response that was really sent, if any *)
-Definition sent (o : outcome) : option (N * bool * N) :=
-  match o_writes o with
-  | [WrComposed rc aa n true] => Some (rc, aa, n)
-  | _ => None
-  end.
-
-Definition located (q : qclass) : bool :=
-  q_reader_ok q && q_edns_ok q && q_pack_ok q &&
-  match q_loc q with LocOk _ _ _ => true | _ => false end.
-
-Lemma loc_counter_cases : forall m a b,
-  loc_counter m a b = KLocEcs \/ loc_counter m a b = KLocEmpty \/ loc_counter m a b = KLocDefault \/
-  loc_counter m a b = KLocFallback \/ loc_counter m a b = KLocResolver.
-Proof.
-  intros m a b. unfold loc_counter.
-  destruct (0 <? m); [tauto|].
-  destruct ((a =? 0) && (b =? 0)); [tauto|].
-  destruct ((a =? 0) && (b =? 1)); [tauto|].
-  destruct ((a =? 0) && (b =? 2)); tauto.
-Qed.
-
-(* case analysis along the control flow: reduce, split on the outermost test, repeat.
-   Nothing is unfolded eagerly, so the term never duplicates its branches. *)
-Ltac split_cond b :=
-  first [ is_var b; destruct b
-        | match b with
-          | negb ?x => is_var x; destruct x
-          | negb ?x && _ => is_var x; destruct x
-          | ?x && _ => is_var x; destruct x
-          end
-        | let E := fresh "E" in destruct b eqn:E ].
-Ltac split_one :=
-  match goal with
-  | |- context [if ?b then _ else _] =>
-      lazymatch b with
-      | context [if _ then _ else _] => fail
-      | _ => split_cond b
-      end
-  end.
-Ltac split_ifs :=
-  repeat (cbn; unfold write_and_log, serve_lookup; cbn; rewrite ?N.eqb_refl; split_one);
-  cbn; unfold write_and_log, serve_lookup; cbn; rewrite ?N.eqb_refl.
-
-Ltac open_serve q :=
-  destruct q as [rok dobit qt eok pok loc con cst iaerr ns auth dserr dsauth nf rf uok sa werr];
-  unfold located, sent, serve;
-  cbn [q_reader_ok q_do q_qtype q_edns_ok q_pack_ok q_loc q_cache_on q_cache q_isauth_err q_ns q_auth
-       q_ds_err q_ds_auth q_nfound q_record_found q_unpack_ok q_sent_answers q_write_err];
-  destruct loc as [| |mask id0 id1];
-  [ | | let Hl := fresh "Hl" in
-        destruct (loc_counter_cases mask id0 id1) as [Hl|[Hl|[Hl|[Hl|Hl]]]]; rewrite Hl; clear Hl ];
-  destruct cst as [hrc haa| |].
-
-(* DNS_queries exactly once, always *)
-Lemma serve_queries_once : forall q, cnt KQueries (o_incs (serve q)) = 1%nat.
-Proof.
-  intros q. open_serve q; split_ifs; reflexivity.
-Qed.
-
-(* the type counter of the question, exactly once iff a reader was acquired *)
-Lemma serve_type_once : forall q,
-  cnt (KType (q_qtype q)) (o_incs (serve q)) = b2n (q_reader_ok q).
-Proof.
-  intros q. open_serve q; split_ifs; cbn; rewrite ?N.eqb_refl; reflexivity.
-Qed.
-
-Lemma serve_type_other : forall q t, t <> q_qtype q -> cnt (KType t) (o_incs (serve q)) = 0%nat.
-Proof.
-  intros q t Ht. open_serve q; cbn [q_qtype] in Ht; apply N.eqb_neq in Ht;
-    split_ifs; cbn; rewrite ?Ht; try reflexivity; try discriminate.
-Qed.
-
-(* never twice: no counter is incremented more than once per query *)
 Fixpoint memb (k : ckey) (l : list ckey) : bool :=
   match l with [] => false | x :: l' => key_eqb k x || memb k l' end.
 Fixpoint nodupb (l : list ckey) : bool :=
   match l with [] => true | x :: l' => negb (memb x l') && nodupb l' end.
+
+(* keys written by the tails (serve_lookup / write_and_log) *)
+Definition in_tail (k : ckey) : bool :=
+  match k with
+  | KErrIsAuth | KRespRefused | KRespNotAuth | KRespAuth
+  | KNotAuthoritative | KNxdomain | KRefused | KBadvers | KNodata => true
+  | _ => false
+  end.
+
+(* the outcome counters proper *)
+Definition not_outcome (k : ckey) : bool :=
+  match k with
+  | KNxdomain | KRefused | KBadvers | KNodata | KNotAuthoritative => false
+  | _ => true
+  end.
+
+Lemma cnt_app : forall k a b, cnt k (a ++ b) = (cnt k a + cnt k b)%nat.
+Proof. induction a as [|x a IH]; intros b; cbn; [reflexivity|]. rewrite IH. lia. Qed.
 
 Lemma cnt_not_mem : forall k l, memb k l = false -> cnt k l = 0%nat.
 Proof.
@@ -112,74 +47,293 @@ Proof.
   - specialize (IH k H2). lia.
 Qed.
 
-Lemma serve_nodup : forall q, nodupb (o_incs (serve q)) = true.
+(* a key outside the class of a list does not occur in it *)
+Lemma cnt_class : forall (c : ckey -> bool) k l,
+  forallb c l = true -> c k = false -> cnt k l = 0%nat.
 Proof.
-  intros q. open_serve q; split_ifs; reflexivity.
+  induction l as [|x l IH]; intros Hl Hk; cbn in *; [reflexivity|].
+  apply andb_true_iff in Hl. destruct Hl as [H1 H2].
+  destruct (key_eqb k x) eqn:E.
+  - apply key_eqb_eq in E. subst. congruence.
+  - now rewrite IH.
 Qed.
 
-Lemma serve_at_most_once : forall q k, (cnt k (o_incs (serve q)) <= 1)%nat.
-Proof. intros q k. apply nodupb_cnt, serve_nodup. Qed.
-
-(* at most one message is written per query *)
-Lemma serve_one_write : forall q, (length (o_writes (serve q)) <= 1)%nat.
-Proof.
-  intros q. open_serve q; split_ifs; cbn; lia.
-Qed.
-
-(* outcome counters and the logger follow the response really sent *)
-Definition outcome_follows_sent (o : outcome) : Prop :=
-  match sent o with
-  | Some (rc, aa, n) =>
-      cnt KNxdomain (o_incs o) = b2n (rc =? RcodeNameError)
-      /\ cnt KRefused (o_incs o) = b2n (rc =? RcodeRefused)
-      /\ cnt KBadvers (o_incs o) = b2n (rc =? RcodeBadVers)
-      /\ cnt KNodata (o_incs o) = b2n ((rc =? RcodeSuccess) && (n =? 0))
-      /\ cnt KNotAuthoritative (o_incs o) = b2n (negb aa)
-      /\ nlog LogSent (o_logs o) = 1%nat /\ o_logs o = [LogSent]
-  | None =>
-      cnt KNxdomain (o_incs o) = 0%nat /\ cnt KRefused (o_incs o) = 0%nat
-      /\ cnt KBadvers (o_incs o) = 0%nat /\ cnt KNodata (o_incs o) = 0%nat
-      /\ cnt KNotAuthoritative (o_incs o) = 0%nat
-      /\ nlog LogSent (o_logs o) = 0%nat
+(* ---------- case analysis along the control flow: reduce, split on the outermost test,
+   repeat.  Nothing is unfolded eagerly, so terms never duplicate their branches. *)
+Ltac split_cond b :=
+  first [ is_var b; destruct b
+        | match b with
+          | negb ?x => is_var x; destruct x
+          | negb ?x && _ => is_var x; destruct x
+          | ?x && _ => is_var x; destruct x
+          end
+        | let E := fresh "E" in destruct b eqn:E ].
+Ltac split_one :=
+  match goal with
+  | |- context [if ?b then _ else _] =>
+      lazymatch b with
+      | context [if _ then _ else _] => fail
+      | _ => split_cond b
+      end
   end.
+Ltac split_ifs := repeat (cbn; rewrite ?N.eqb_refl; split_one); cbn; rewrite ?N.eqb_refl.
 
-Lemma serve_outcome : forall q, outcome_follows_sent (serve q).
+(* ---------- the tails *)
+
+Record tail_ok (t : outcome) : Prop := mkTail {
+  t_keys : forallb in_tail (o_incs t) = true;
+  t_nodup : nodupb (o_incs t) = true;
+  t_writes : (length (o_writes t) <= 1)%nat;
+  t_follows : outcome_follows_sent t
+}.
+
+Ltac follows_fin :=
+  cbn;
+  repeat match goal with
+  | H : (?a =? ?b) = _ |- context [?a =? ?b] => rewrite H
+  end; cbn;
+  first [ repeat split; reflexivity
+        | repeat match goal with
+          | H : (?a =? ?b) = true |- _ => apply N.eqb_eq in H; subst
+          end; cbn in *; try discriminate; repeat split; reflexivity ].
+
+Lemma wal_tail : forall rc aa n w, tail_ok (write_and_log rc aa n w).
 Proof.
-  intros q. unfold outcome_follows_sent.
-  open_serve q; split_ifs; cbn;
-    repeat match goal with
-    | H : (?a =? ?b) = _ |- context [?a =? ?b] => rewrite H
-    | H : negb ?a = _ |- context [negb ?a] => rewrite H
-    | H : (?a && ?b) = _ |- context [?a && ?b] => rewrite H
-    end; cbn; try (repeat split; reflexivity);
-    repeat match goal with
-    | H : (?a =? ?b) = true |- _ => apply N.eqb_eq in H; subst
-    end; try discriminate; cbn in *; try (repeat split; reflexivity); try discriminate.
+  intros rc aa n w. unfold write_and_log. split.
+  - split_ifs; reflexivity.
+  - split_ifs; reflexivity.
+  - split_ifs; lia.
+  - unfold outcome_follows_sent, sent. destruct w; [cbn; repeat split; reflexivity|].
+    destruct aa; cbn [negb].
+    + split_ifs; follows_fin.
+    + split_ifs; follows_fin.
 Qed.
 
-Definition loc_total (l : list ckey) : nat :=
-  (cnt KLocEcs l + cnt KLocEmpty l + cnt KLocDefault l + cnt KLocFallback l + cnt KLocResolver l)%nat.
-Definition cache_total (l : list ckey) : nat :=
-  (cnt KCacheHit l + cnt KCacheExpired l + cnt KCacheMissed l)%nat.
-
-(* exactly one location class and (cache enabled) exactly one cache counter, iff the
-   handler got as far as a location *)
-Lemma serve_location_cache : forall q,
-  loc_total (o_incs (serve q)) = b2n (located q) /\
-  cache_total (o_incs (serve q)) = b2n (located q && q_cache_on q).
+Lemma stop_tail : forall logs ws ret,
+  nlog LogSent logs = 0%nat -> ws = [] \/ ws = [WrBare] -> tail_ok (mkO [] logs ws ret).
 Proof.
-  intros q. unfold loc_total, cache_total.
-  open_serve q; split_ifs; cbn; split; reflexivity.
+  intros logs ws ret Hl Hw. split; cbn.
+  - reflexivity.
+  - reflexivity.
+  - destruct Hw as [->| ->]; cbn; lia.
+  - unfold outcome_follows_sent, sent. cbn.
+    destruct Hw as [->| ->]; cbn; repeat split; try reflexivity; exact Hl.
 Qed.
 
-(* cache hit counter iff the cached response was the one used *)
-Lemma serve_hit_is_cached : forall q rc aa,
-  q_cache q = CHit rc aa -> located q = true -> q_cache_on q = true -> q_write_err q = false ->
-  sent (serve q) = Some (rc, aa, q_sent_answers q) /\ cnt KCacheHit (o_incs (serve q)) = 1%nat.
+(* a tail with more (tail) counters in front, as long as nothing repeats and the
+   outcome counters are not among them *)
+Lemma tail_prefix : forall l t,
+  tail_ok t ->
+  forallb in_tail l = true -> nodupb (l ++ o_incs t) = true ->
+  forallb not_outcome l = true ->
+  tail_ok (out_app (incs l) t).
 Proof.
-  intros q rc aa. open_serve q; cbn; intros H1 H2 H3 H4; try discriminate;
-    inversion H1; subst; cbn in H2; split_ifs; try discriminate; cbn; auto.
+  intros l t [H1 H2 H3 H4] Hl Hn Hc. split; cbn.
+  - rewrite forallb_app, Hl, H1. reflexivity.
+  - exact Hn.
+  - exact H3.
+  - unfold outcome_follows_sent, sent in *. cbn.
+    assert (Z : forall k, not_outcome k = false -> cnt k (l ++ o_incs t) = cnt k (o_incs t)).
+    { intros k Hk. rewrite cnt_app. rewrite (cnt_class _ k l Hc Hk). reflexivity. }
+    rewrite !Z by reflexivity. exact H4.
 Qed.
+
+Lemma lookup_tail : forall q, tail_ok (serve_lookup q).
+Proof.
+  intros q. unfold serve_lookup.
+  destruct (q_isauth_err q).
+  { split; cbn; try reflexivity; try lia;
+    unfold outcome_follows_sent, sent; cbn; repeat split; reflexivity. }
+  destruct (negb (q_ns q) && negb (q_auth q)).
+  { apply tail_prefix; [apply wal_tail|reflexivity| |reflexivity].
+    unfold write_and_log. split_ifs; reflexivity. }
+  cbv zeta.
+  destruct (negb (q_auth q) && (q_qtype q =? TypeDS) && q_ds_err q).
+  { split; cbn; try reflexivity; try lia;
+    unfold outcome_follows_sent, sent; cbn; repeat split; reflexivity. }
+  set (auth := if negb (q_auth q) && (q_qtype q =? TypeDS) then q_ds_auth q else q_auth q).
+  set (rcode := if auth && (q_nfound q =? 0) && negb (q_record_found q) then RcodeNameError else RcodeSuccess).
+  destruct (negb (q_unpack_ok q)).
+  { split; cbn.
+    - destruct auth; reflexivity.
+    - destruct auth; reflexivity.
+    - lia.
+    - unfold outcome_follows_sent, sent. cbn. destruct auth; cbn; repeat split; reflexivity. }
+  apply tail_prefix; [apply wal_tail| | |]; destruct auth; try reflexivity;
+    unfold write_and_log; split_ifs; reflexivity.
+Qed.
+
+(* ---------- the prefix *)
+
+(* everything a prefix must satisfy, as one boolean *)
+Definition pre_okb (q : qclass) (l : list ckey) : bool :=
+  nodupb l
+  && forallb (fun k => negb (in_tail k)) l
+  && Nat.eqb (cnt KQueries l) 1
+  && Nat.eqb (cnt (KType (q_qtype q)) l) (b2n (q_reader_ok q))
+  && forallb (fun k => match k with KType t => t =? q_qtype q | _ => true end) l
+  && Nat.eqb (loc_total l) (b2n (located q))
+  && Nat.eqb (cache_total l) (b2n (located q && q_cache_on q)).
+
+Lemma loc_counter_cases : forall m a b,
+  loc_counter m a b = KLocEcs \/ loc_counter m a b = KLocEmpty \/ loc_counter m a b = KLocDefault \/
+  loc_counter m a b = KLocFallback \/ loc_counter m a b = KLocResolver.
+Proof.
+  intros m a b. unfold loc_counter.
+  destruct (0 <? m); [tauto|].
+  destruct ((a =? 0) && (b =? 0)); [tauto|].
+  destruct ((a =? 0) && (b =? 1)); [tauto|].
+  destruct ((a =? 0) && (b =? 2)); tauto.
+Qed.
+
+Ltac decomp_with l t :=
+  exists l, t; split; [reflexivity|split; [cbn; rewrite ?N.eqb_refl; reflexivity|]].
+
+Lemma serve_decomp : forall q,
+  exists l t, serve q = out_app (incs l) t /\ pre_okb q l = true /\ tail_ok t.
+Proof.
+  intros q.
+  destruct q as [rok dobit qt eok pok loc con cst iaerr ns auth dserr dsauth nf rf uok sa werr].
+  set (q := mkQ rok dobit qt eok pok loc con cst iaerr ns auth dserr dsauth nf rf uok sa werr).
+  assert (HT := lookup_tail q).
+  unfold serve, pre_okb, located.
+  cbn [q_reader_ok q_do q_qtype q_edns_ok q_pack_ok q_loc q_cache_on q_cache q_sent_answers q_write_err q].
+  destruct rok; cbn [negb].
+  2:{ decomp_with [KQueries; KReadError] (mkO [] [] [] RcodeServerFailure).
+      apply stop_tail; [reflexivity|left; reflexivity]. }
+  destruct eok; cbn [negb].
+  2:{ destruct dobit.
+      - decomp_with [KQueries; KDoBit; KType qt] (write_and_log RcodeBadVers false sa werr). apply wal_tail.
+      - decomp_with [KQueries; KType qt] (write_and_log RcodeBadVers false sa werr). apply wal_tail. }
+  destruct pok; cbn [negb].
+  2:{ destruct dobit.
+      - decomp_with [KQueries; KDoBit; KType qt; KPackFail] (mkO [] [LogFailedReq] [WrBare] RcodeServerFailure).
+        apply stop_tail; [reflexivity|right; reflexivity].
+      - decomp_with [KQueries; KType qt; KPackFail] (mkO [] [LogFailedReq] [WrBare] RcodeServerFailure).
+        apply stop_tail; [reflexivity|right; reflexivity]. }
+  destruct loc as [| |mask id0 id1].
+  { destruct dobit.
+    - decomp_with [KQueries; KDoBit; KType qt] (mkO [] [LogFailedReq] [] RcodeServerFailure).
+      apply stop_tail; [reflexivity|left; reflexivity].
+    - decomp_with [KQueries; KType qt] (mkO [] [LogFailedReq] [] RcodeServerFailure).
+      apply stop_tail; [reflexivity|left; reflexivity]. }
+  { destruct dobit.
+    - decomp_with [KQueries; KDoBit; KType qt] (mkO [] [LogFailedReq] [] RcodeServerFailure).
+      apply stop_tail; [reflexivity|left; reflexivity].
+    - decomp_with [KQueries; KType qt] (mkO [] [LogFailedReq] [] RcodeServerFailure).
+      apply stop_tail; [reflexivity|left; reflexivity]. }
+  destruct (loc_counter_cases mask id0 id1) as [Hl|[Hl|[Hl|[Hl|Hl]]]]; rewrite Hl; clear Hl;
+    (destruct con;
+     [ destruct cst as [hrc haa| |];
+       [ destruct dobit;
+         [ eexists (_ :: _ :: _ :: _ :: [KCacheHit]), (write_and_log hrc haa sa werr)
+         | eexists (_ :: _ :: _ :: [KCacheHit]), (write_and_log hrc haa sa werr) ];
+         (split; [reflexivity|split; [cbn; rewrite ?N.eqb_refl; reflexivity|apply wal_tail]])
+       | destruct dobit;
+         [ eexists (_ :: _ :: _ :: _ :: [KCacheExpired]), (serve_lookup q)
+         | eexists (_ :: _ :: _ :: [KCacheExpired]), (serve_lookup q) ];
+         (split; [reflexivity|split; [cbn; rewrite ?N.eqb_refl; reflexivity|exact HT]])
+       | destruct dobit;
+         [ eexists (_ :: _ :: _ :: _ :: [KCacheMissed]), (serve_lookup q)
+         | eexists (_ :: _ :: _ :: [KCacheMissed]), (serve_lookup q) ];
+         (split; [reflexivity|split; [cbn; rewrite ?N.eqb_refl; reflexivity|exact HT]]) ]
+     | destruct dobit;
+       [ eexists (_ :: _ :: _ :: [_]), (serve_lookup q)
+       | eexists (_ :: _ :: [_]), (serve_lookup q) ];
+       (split; [reflexivity|split; [cbn; rewrite ?N.eqb_refl; reflexivity|exact HT]]) ]).
+Qed.
+
+(* ---------- consequences for every query *)
+
+Section PerQuery.
+  Variable q : qclass.
+
+  Lemma pre_unpack : forall l, pre_okb q l = true ->
+    nodupb l = true /\ forallb (fun k => negb (in_tail k)) l = true /\
+    cnt KQueries l = 1%nat /\ cnt (KType (q_qtype q)) l = b2n (q_reader_ok q) /\
+    forallb (fun k => match k with KType t => t =? q_qtype q | _ => true end) l = true /\
+    loc_total l = b2n (located q) /\ cache_total l = b2n (located q && q_cache_on q).
+  Proof.
+    intros l H. unfold pre_okb in H.
+    repeat (apply andb_true_iff in H; let H' := fresh "P" in destruct H as [H H']).
+    repeat match goal with P : Nat.eqb _ _ = true |- _ => apply Nat.eqb_eq in P end.
+    repeat split; assumption.
+  Qed.
+
+  Lemma tail_zero : forall t k, tail_ok t -> in_tail k = false -> cnt k (o_incs t) = 0%nat.
+  Proof. intros t k [H _ _ _] Hk. exact (cnt_class in_tail k _ H Hk). Qed.
+
+  Lemma pre_zero : forall l k,
+    forallb (fun k => negb (in_tail k)) l = true -> in_tail k = true -> cnt k l = 0%nat.
+  Proof.
+    intros l k H Hk. apply (cnt_class (fun k => negb (in_tail k)) k l H). now rewrite Hk.
+  Qed.
+
+  (* DNS_queries exactly once, always *)
+  Lemma serve_queries_once : cnt KQueries (o_incs (serve q)) = 1%nat.
+  Proof.
+    destruct (serve_decomp q) as [l [t [E [P T]]]]. rewrite E. cbn [o_incs out_app incs].
+    destruct (pre_unpack l P) as [_ [_ [H _]]].
+    rewrite cnt_app, H, (tail_zero t KQueries T); reflexivity.
+  Qed.
+
+  (* the type counter of the question exactly once iff a reader was acquired *)
+  Lemma serve_type_once : cnt (KType (q_qtype q)) (o_incs (serve q)) = b2n (q_reader_ok q).
+  Proof.
+    destruct (serve_decomp q) as [l [t [E [P T]]]]. rewrite E. cbn [o_incs out_app incs].
+    destruct (pre_unpack l P) as [_ [_ [_ [H _]]]].
+    rewrite cnt_app, H, (tail_zero t _ T); [lia|reflexivity].
+  Qed.
+
+  Lemma serve_type_other : forall t, t <> q_qtype q -> cnt (KType t) (o_incs (serve q)) = 0%nat.
+  Proof.
+    intros ty Hne.
+    destruct (serve_decomp q) as [l [t [E [P T]]]]. rewrite E. cbn [o_incs out_app incs].
+    destruct (pre_unpack l P) as [_ [_ [_ [_ [H _]]]]].
+    rewrite cnt_app, (tail_zero t _ T) by reflexivity.
+    rewrite (cnt_class _ (KType ty) l H); [reflexivity|]. now apply N.eqb_neq.
+  Qed.
+
+  (* never twice *)
+  Lemma serve_at_most_once : forall k, (cnt k (o_incs (serve q)) <= 1)%nat.
+  Proof.
+    intros k.
+    destruct (serve_decomp q) as [l [t [E [P T]]]]. rewrite E. cbn [o_incs out_app incs].
+    destruct (pre_unpack l P) as [H1 [H2 _]].
+    rewrite cnt_app. destruct (in_tail k) eqn:Ek.
+    - rewrite (pre_zero l k H2 Ek). destruct T as [_ Hn _ _]. apply (nodupb_cnt _ k) in Hn. lia.
+    - rewrite (tail_zero t k T Ek). apply (nodupb_cnt _ k) in H1. lia.
+  Qed.
+
+  (* at most one message is written per query *)
+  Lemma serve_one_write : (length (o_writes (serve q)) <= 1)%nat.
+  Proof.
+    destruct (serve_decomp q) as [l [t [E [P T]]]]. rewrite E. cbn. apply T.
+  Qed.
+
+  (* outcome counters and the logger follow the response really sent *)
+  Lemma serve_outcome : outcome_follows_sent (serve q).
+  Proof.
+    destruct (serve_decomp q) as [l [t [E [P T]]]]. rewrite E.
+    destruct (pre_unpack l P) as [_ [H2 _]].
+    destruct T as [_ _ _ HF].
+    unfold outcome_follows_sent, sent in *. cbn [o_incs o_logs o_writes out_app incs app].
+    rewrite !cnt_app.
+    rewrite !(pre_zero l _ H2) by reflexivity. exact HF.
+  Qed.
+
+  (* exactly one location class and (cache enabled) exactly one cache counter, iff the
+     handler got as far as a location *)
+  Lemma serve_location_cache :
+    loc_total (o_incs (serve q)) = b2n (located q) /\
+    cache_total (o_incs (serve q)) = b2n (located q && q_cache_on q).
+  Proof.
+    destruct (serve_decomp q) as [l [t [E [P T]]]]. rewrite E. cbn [o_incs out_app incs].
+    destruct (pre_unpack l P) as [_ [_ [_ [_ [_ [H6 H7]]]]]].
+    unfold loc_total, cache_total in *. rewrite !cnt_app.
+    rewrite !(tail_zero t _ T) by reflexivity. lia.
+  Qed.
+End PerQuery.
 
 (* the counters left by a set of queries served concurrently: every interleaving of
    their IncrementCounter calls yields, per key, the number of queries that bump it *)
@@ -187,9 +341,8 @@ Definition query_prog (q : qclass) : list cop := map OpInc (o_incs (serve q)).
 
 Lemma total_map_inc : forall k l, total k (map OpInc l) = Z.of_nat (cnt k l).
 Proof.
-  induction l as [|x l IH]; cbn [map total fold_right cnt]; [reflexivity|].
-  fold (total k (map OpInc l)). rewrite IH. cbn [op_delta].
-  destruct (key_eqb k x); lia.
+  induction l as [|x l IH]; cbn [map total cnt]; [reflexivity|].
+  rewrite IH. cbn [op_delta]. destruct (key_eqb k x); lia.
 Qed.
 
 Theorem concurrent_queries_sum : forall qs tr k,
@@ -197,8 +350,44 @@ Theorem concurrent_queries_sum : forall qs tr k,
   cget k (fst (crun [] tr)) = fold_right (fun q a => (Z.of_nat (cnt k (o_incs (serve q))) + a)%Z) 0%Z qs.
 Proof.
   intros qs tr k H.
-  rewrite crun_final, (total_perm k _ _ (interleaving_perm _ _ H)). cbn [cget].
+  rewrite crun_final, (total_perm k _ _ (interleaving_perm _ _ H)). cbn [cget]. clear H.
   induction qs as [|q qs IH]; cbn [map concat fold_right]; [reflexivity|].
   unfold query_prog at 1. rewrite total_app, total_map_inc.
   cbn [map concat] in IH. lia.
+Qed.
+
+(* ---------- the statement used by Properties/C19.v *)
+Theorem counters_once : forall q,
+  let o := serve q in
+  cnt KQueries (o_incs o) = 1%nat
+  /\ cnt (KType (q_qtype q)) (o_incs o) = b2n (q_reader_ok q)
+  /\ (forall t, t <> q_qtype q -> cnt (KType t) (o_incs o) = 0%nat)
+  /\ (forall k, (cnt k (o_incs o) <= 1)%nat)
+  /\ (length (o_writes o) <= 1)%nat
+  /\ outcome_follows_sent o
+  /\ loc_total (o_incs o) = b2n (located q)
+  /\ cache_total (o_incs o) = b2n (located q && q_cache_on q).
+Proof.
+  intros q o. subst o.
+  split; [apply serve_queries_once|].
+  split; [apply serve_type_once|].
+  split; [apply serve_type_other|].
+  split; [apply serve_at_most_once|].
+  split; [apply serve_one_write|].
+  split; [apply serve_outcome|].
+  apply serve_location_cache.
+Qed.
+
+(* non-vacuity: an NXDOMAIN answer on a cache miss, and an interleaving of two queries *)
+Example counters_example :
+  let q := mkQ true false 1 true true (LocOk 0 0 1) true CMiss false true true false false 0 false true 0 false in
+  sent (serve q) = Some (RcodeNameError, true, 0) /\
+  o_incs (serve q) = [KQueries; KType 1; KLocDefault; KCacheMissed; KRespAuth; KNxdomain] /\
+  interleaving [[OpInc KQueries; OpExport]; [OpInc KQueries]] [OpInc KQueries; OpInc KQueries; OpExport].
+Proof.
+  cbn. repeat split.
+  apply (il_step [] (OpInc KQueries) [OpExport] [[OpInc KQueries]]).
+  apply (il_step [[OpExport]] (OpInc KQueries) [] []).
+  apply (il_step [] OpExport [] [[]]).
+  apply il_done. repeat constructor.
 Qed.
